@@ -11,6 +11,11 @@ CHECKS = {
          "Runs every pool implementation (bitmap, epoch, distributed session/lease, PoolAllocator, LocalAllocator, DHCPv4, DHCPv6 address/prefix, PPPoE, peer-local, nexus hash) through all operation histories up to subscriber renaming on <=16-unit geometries (depth 5 quick / 6-7 thorough), seeded random walks on large pools, and concurrent histories checked for linearizability against an ownership model; every returned value is judged by an independent netip-based oracle for uniqueness, range and same-value-on-re-ask. Held-on-what-was-observed, not a proof.",
          "Trusted: the harness's ownership model and net/netip; Go race detector and porcupine v1.3.0. Exhaustive only inside the stated small scopes; large pools and schedules are sampled.",
          "DESIGN.md §5 C01"),
+ "C05": ("c05_conservation", "fault_enumeration",
+         "conservation monitor: shadow-model + drain-to-exhaustion oracle over real API histories with a store-write fault armed at every history position; Go race detector",
+         "After every history (exhaustive to depth 5/7 on small geometries incl. a fault symbol that fails the next store write, epoch-wrap walks with 0..12 epoch advances between operations, seeded random walks with faults on large pools) the pool is drained with fresh subscribers and usable = held + obtainable is judged on measured values; Stats/List are compared with the model after every operation; exhaustion is accepted only when every usable unit is held.",
+         "Trusted: the ownership/lease model (held iff epochs since last renew <= grace), documented usable-unit counts per implementation. Grace periods 1-2 only. Store faults are injected at the Store/AllocationStore interface boundary.",
+         "DESIGN.md §5 C05"),
 }
 
 REASON_TODO = "check not yet built in this revision of /verif (planned in DESIGN.md §5); nothing is claimed for it"
